@@ -56,10 +56,13 @@ def inplace_ops(tkey):
                 {"k": "mm_map", "i": 0, "v": [1, 2]}, {"k": "mm_inner_module"}, {"k": "mm_inner_ctl"}, {"k": "mm_inner_name"},
                 {"k": "mm_uvalue", "i": 1, "v": 1234}, {"k": "mm_remap_seq", "first": "MultiSynth.transpose"},
                 {"k": "mm_remap_seq", "first": "VorbisPlayer.finetune"}, {"k": "mm_remap_seq", "first": "Lfo.freq"},
-                {"k": "mm_remap_seq", "first": "Amplifier.balance"}]
+                {"k": "mm_remap_seq", "first": "Amplifier.balance"},
+                {"k": "mm_map_late", "target": "AnalogGenerator.panning", "v": 40},
+                {"k": "mm_map_late", "target": "Amplifier.balance", "v": -5}]
     if t.type == "Sampler":
         ops += [{"k": "sm_env_append", "e": "volume_envelope"}, {"k": "sm_env_append", "e": "pitch_envelope"},
-                {"k": "sm_env_point0", "e": "panning_envelope"}, {"k": "sm_env_flag", "e": "volume_envelope"},
+                {"k": "sm_env_point0", "e": "panning_envelope"}, {"k": "sm_env_point_item", "e": "volume_envelope"},
+                {"k": "sm_env_point_item", "e": "pitch_envelope"}, {"k": "sm_env_flag", "e": "volume_envelope"},
                 {"k": "sm_env_append", "e": "effect0"}, {"k": "sm_notemap"}, {"k": "sm_sample", "i": 0},
                 {"k": "sm_sample", "i": 127}, {"k": "sm_effect"}, {"k": "sm_vibrato"}, {"k": "sm_legacy_side", "points": 0},
                 {"k": "sm_bytearray", "i": 3}, {"k": "sm_bytearray_edit", "i": 3},
@@ -144,6 +147,21 @@ def apply_inplace(mod, op):
         mp.module, mp.controller = second.index, list(second.controllers).index("volume")
         mod.update_user_defined_controllers()
         mod.set_raw("user_defined_1", 300)
+    elif k == "mm_map_late":
+        # a user-defined controller is mapped onto a module number that is NOT in the embedded project yet and synced
+        # (nothing to resolve), THEN the module is attached there and the controllers are synced again, then a value set
+        tname, cname = op["target"].split(".")
+        inner = mod.project
+        slot = inner.modules.index(None) if None in inner.modules else len(inner.modules)
+        mod.user_defined_controllers = max(mod.user_defined_controllers, 1)
+        mp = mod.mappings.values[0]
+        mp.module, mp.controller = slot, list(getattr(rv.m, tname).controllers).index(cname)
+        mod.update_user_defined_controllers()
+        tgt = getattr(rv.m, tname)()
+        inner.attach_module(tgt)
+        assert tgt.index == slot
+        mod.update_user_defined_controllers()
+        setattr_ud(mod, 0, op["v"])
     elif k == "sm_legacy_side":
         # a SIDE object: an old-layout file (no envelope chunks, legacy point counts as given) is loaded and its
         # upgraded envelopes are edited in place; nothing of that may reach `mod` or any later Sampler
@@ -179,6 +197,13 @@ def apply_inplace(mod, op):
             e.points.append((0x200, 0x1000))
         elif k == "sm_env_point0":
             e.points[0] = (0, 0x1234 - 0x2000)
+        elif k == "sm_env_point_item":
+            # a single point changed IN PLACE -- only possible where the tree's points are mutable (tuples are not: then
+            # the request has no effect); whatever it changes is this envelope's own
+            try:
+                e.points[0][1] = 0x0777
+            except TypeError:
+                pass
         else:
             e.loop = not e.loop
             e.sustain_point = 2
@@ -369,6 +394,15 @@ def check_history(tkey, hist):
             if d or now[1] != o_a4[1]:
                 vs.append(C.viol("original-changed-by-clone", key("original-after-first-op", C.first_diff_key(d) or "bytes"),
                                  {"diff": S.diff_text(d)}, case))
+            # ... and the copies themselves: cloning / saving a copy that was edited after it had been loaded leaves it as it is
+            for X, which in ((K4, "clone-edited-after-cloning"), (L4, "loaded-then-edited")):
+                s_x = S.module(X, in_project=False)
+                X.clone()
+                C.save(rv.Synth(X))
+                d = S.diff(s_x, S.module(X, in_project=False))
+                if d:
+                    vs.append(C.viol("save-load-clone-changes-object", key(which, C.first_diff_key(d)),
+                                     {"diff": S.diff_text(d)}, case))
             fresh = observe_module(deviate.new_module(tkey))
             d = S.diff(pr[0], fresh[0])
             if d or fresh[1] != pr[1]:
